@@ -69,3 +69,10 @@ check(
     "Hypothesis property-based testing; JSON Schema + structural invariants as validity predicate",
     "DESIGN.md §3 C15",
 )
+check(
+    "C04", "exploration",
+    "Differential generated search: for every registered codemod a generated project (programs of the C01 space, optional manifest of each kind/variant for dependency-adding codemods) and generated CLI options are run with --dry-run (whole-tree snapshot must be byte-identical afterwards: nothing created, modified or deleted) and then for real on the same tree; the two reports must be equal after removing run.elapsed and run.commandLine.",
+    "Trusted: snapshots of the target directory; the other configuration of the same code (real run) as the reference for the report; single codemod per case as the statement says.",
+    "Hypothesis property-based testing; differential dry-run vs real run + snapshot equality",
+    "DESIGN.md §3 C04",
+)
